@@ -77,4 +77,17 @@ def c01(chk):
         tokens(chk, "wide", 5, PANIC, ["if", "wf", "unspec"], workers=16)
 
 
-CHECKS = {"C01": c01, "C02": c02, "C05": c05, "C13": c13, "C14": c14}
+def c03(chk):
+    chk.rule = ("every operator x every ordered pair of pool values (boundary values of all six types), operands bound "
+                "as variables and, where literals exist, as literals; non-trivial = distinct cases whose reference "
+                "outcome is a value or an arithmetic error (not a type error)")
+    chk.trusted.append("IEEE-754 hardware arithmetic and libm through primgen (a program that does not link evalexpr)")
+    pool = "quick" if chk.tier == "quick" else "full"
+    prims = vf.make_prims("ops", chk.outdir, pool=pool)
+    info, summ = vf.run_model("ops_" + pool, "MC_Ops.tla", {"PoolName": pool}, chk.outdir,
+                              workers=12 if chk.tier == "quick" else 16, env_extra={"PRIMS": prims})
+    chk.add_model(info, summ, {"op", "panic"}, ["op_nontrivial"],
+                  note=f"16 operators x pool^2 ('{pool}' pool of Pools.tla)")
+
+
+CHECKS = {"C03": c03, "C01": c01, "C02": c02, "C05": c05, "C13": c13, "C14": c14}
